@@ -490,7 +490,7 @@ func init() {
 			return []MetaSource{{"C01", 5}, {"C02", 7}, {"C03", 1}, {"C04", 1}, {"C05", 1}, {"C06", 3}, {"C07", 1}, {"C09", 1}, {"C10", 5}, {"C11", 17}, {"C12", 7}, {"C13", 17}, {"C14", 5}, {"C15", 5}, {"C16", 31}, {"C17", 1}, {"C19", 7}}
 		},
 		Jobs:        func(tier string) []sym.Job { return nil },
-		Bounds:      []string{"the jobs of the other properties (quick: every k-th job per property, offset by VERIF_SEED; thorough: all), i.e. single steps of both CPUs for all opcodes, disassembly, CreateEmulator, RunUntil, every emitter method, Finalize, listings, Clone/Append, the mapping and colour functions, ROM/header code - each from symbolic inputs", "plus a syntactic scan of every repository function for stores through addresses derived from package-level variables"},
+		Bounds:      []string{"the quick-tier jobs of the other properties (quick: every k-th job per property, k prime, offset by VERIF_SEED; thorough: all of them), i.e. single steps of both CPUs for all opcodes, disassembly, CreateEmulator, RunUntil, every emitter method, Finalize, listings, Clone/Append, the mapping and colour functions, ROM/header code - each from symbolic inputs", "plus a syntactic scan of every repository function for stores through addresses derived from package-level variables"},
 		Outside:     []string{"thread interleavings are NOT explored (this technique cannot): the property is decided through the sufficient condition its own statement gives - the library keeps no mutable state outside caller-owned objects; goroutines that touch disjoint memory cannot influence each other under the Go memory model", "data races on objects the caller shares deliberately"},
 		Explanation: "write-set monitor: every store, map update, copy, append-in-place and delete executed on any feasible path of any job is checked against the set of objects reachable from the repository's package-level variables after initialisation; a write guarded by an infeasible condition is not flagged, a cache write reachable for some inputs is",
 	})
@@ -631,9 +631,9 @@ func init() {
 			return js
 		},
 		Bounds:         []string{"colour: all 2^16 values; multiplicand: all 256; divisor: all 255 non-zero; channel triples: all 2^24", "loop-free code; no unwinding bound"},
-		Outside:        []string{"divisor 0 (documented precondition; Go panics)", "monotonicity in the ratio mul/div across different divisors (two symbolic multiplier/divisor pairs): unknown after 60 s per query on z3 5.1.0, cvc5 and cvc5 --solve-bv-as-int=sum, so it is not claimed by a query; it follows from the discharged obligation that every channel equals min(floor(ch*mul/div),31) exactly, floor being monotone"},
+		Outside:        []string{"divisor 0 (documented precondition; Go panics)", "monotonicity in the ratio mul/div across two different divisors at once (two symbolic multiplier/divisor pairs): unknown after 60 s per query on z3 5.1.0, cvc5 and cvc5 --solve-bv-as-int=sum, so it is not claimed by a query; it follows from the discharged obligation that every channel equals min(floor(ch*mul/div),31) exactly, floor being monotone"},
 		Exhaustive:     true,
-		Explanation:    "color15 functions executed symbolically; reference = per-channel min(floor(ch*mul/div),31) computed in 32 bits",
+		Explanation:    "color15 functions executed symbolically; reference = per-channel min(floor(ch*mul/div),31) computed in 32 bits; the monotonicity clauses are decided as the property states them - as consequences of the exact formula: the real MulDiv is proved equal to the formula, the formula is proved monotone in the multiplicand and antitone in the divisor (lemma jobs that do not depend on how the implementation writes its arithmetic)",
 		TimeoutQuickMs: 8000, TimeoutThoroughMs: 60000, Fallbacks: []string{"cvc5-int", "cvc5"},
 		ConformanceQuick: 32, ConformanceThorough: 512,
 	})
@@ -868,7 +868,7 @@ func c16Jobs(tier string) []sym.Job {
 		}
 		for split := 0; split <= len(ops); split++ {
 			base, listing := (sum+split)%2, (sum/2+split)%2
-			if tier == "thorough" || len(ops) < 3 {
+			if (tier == "thorough" && len(ops) < 4) || len(ops) < 3 { // all four (base, listing) settings; longest sequences: one
 				for cfg := 0; cfg < 4; cfg++ {
 					js = append(js, job("c16", "Split", fmt.Sprintf("c16/seq-%s/split%d/base%d/listing%d", name, split, cfg&1, cfg>>1), prog, int64(len(ops)), int64(split), int64(cfg&1), int64(cfg>>1)))
 				}
